@@ -420,7 +420,9 @@ static std::string iv_ops(Line const& l)
         oracle = !e.empty() ? okstr({}, ref) : ASSERT;
     } else if (op == "iv.unsafe_set_size") { // the private member, see Rob
         std::size_t n = SZ(l, "n");
-        impl   = done([&] { (v->*rob_get(IvSetSize<Cap>{}))(n); return Vec{}; });
+        if constexpr (Cap != 0) { // inplace_vector<T, 0> has no size field
+            impl = done([&] { (v->*rob_get(IvSetSize<Cap>{}))(n); return Vec{}; });
+        } else return "bad-op\tbad-op";
         oracle = n <= Cap ? okstr({}, Vec(e.begin(), e.begin() + static_cast<LL>(std::min(n, e.size())))) : ASSERT;
     } else {
         delete v;
@@ -1039,7 +1041,7 @@ static std::string step(Line const& l)
         if (cap == 256) return sv_ops<int, 256>(l); // ... and to uint16_t from 256 (smallest_size_t)
         return "bad-op\tbad-op";
     }
-    if (pre == "iv") return cap == 1 ? iv_ops<1>(l) : cap == 3 ? iv_ops<3>(l) : cap == 4 ? iv_ops<4>(l) : "bad-op\tbad-op";
+    if (pre == "iv") return cap == 0 ? iv_ops<0>(l) : cap == 1 ? iv_ops<1>(l) : cap == 3 ? iv_ops<3>(l) : cap == 4 ? iv_ops<4>(l) : "bad-op\tbad-op";
     if (pre == "vw" || pre == "sp") return view_ops(l);
     if (pre == "ar") return cap == 0 ? ar_ops<0>(l) : cap == 1 ? ar_ops<1>(l) : cap == 3 ? ar_ops<3>(l) : "bad-op\tbad-op";
     if (pre == "str") return cap == 4 ? str_ops<4>(l) : cap == 20 ? str_ops<20>(l) : "bad-op\tbad-op";
